@@ -102,7 +102,11 @@ ShiftInst ==
      I("shift:mul2p32", "E", Bin("E.Multiply", va, Num("4294967296"))), I("shift:mul2p64", "E", Bin("E.Multiply", va, Num("18446744073709551616"))),
      I("shift:mulhuge", "E", Bin("E.Multiply", va, Num("100000000000000000000000000000000000000000000000000000000000000000000000000000001"))),
      I("shift:mul0", "E", Bin("E.Multiply", va, Num("0"))), I("shift:mul1_000", "E", Bin("E.Divide", va, Num("1_024"))),
-     I("shift:mul3e2", "E", Bin("E.Multiply", va, NumE("3", "2"))), I("shift:mul2e1", "E", Bin("E.Multiply", va, NumE("2", "1")))}
+     I("shift:mul3e2", "E", Bin("E.Multiply", va, NumE("3", "2"))), I("shift:mul2e1", "E", Bin("E.Multiply", va, NumE("2", "1"))),
+     \* both operands literal: either one being a power of two suffices
+     I("shift:2mul7", "E", Bin("E.Multiply", Num("2"), Num("7"))), I("shift:10mul8", "E", Bin("E.Multiply", Num("10"), Num("8"))),
+     I("shift:8mul16", "E", Bin("E.Multiply", Num("8"), Num("16"))), I("shift:3mul5", "E", Bin("E.Multiply", Num("3"), Num("5"))),
+     I("shift:1000div1024", "E", Bin("E.Divide", Num("1000"), Num("1024"))), I("shift:7div3", "E", Bin("E.Divide", Num("7"), Num("3")))}
 
 KeccakInst ==
     {I("keccak:call", "E", CallNamed("keccak256", <<va>>)), I("keccak:sha", "E", CallNamed("sha256", <<va>>)),
